@@ -56,6 +56,13 @@ impl TransactionEventHandler {
     }
 }
 
+#[cfg(feature = "verif")]
+impl TransactionEventHandler {
+    pub(crate) fn verif_len(&self) -> usize {
+        self.events.len()
+    }
+}
+
 #[derive(Debug)]
 pub struct TransactionEvents<'a> {
     handler: &'a mut TransactionEventHandler,
